@@ -1752,6 +1752,38 @@ pub fn fam_block_boundaries(cfg: &Config, flags: Flags) -> (Report, Vec<u8>) {
 		let delta = (i % 13) as isize - 6;
 		let at = (b as isize + delta) as usize; // offset of the first byte of the character
 		let mut n = 0u64;
+		// an ASCII-only head of that many bytes, then an ill-formed sequence (lone continuation byte, 0xFF,
+		// truncated lead byte at the very end, overlong form), inside a string and between items
+		for bad in [&[0x80u8][..], &[0xff], &[0xc3], &[0xc0, 0xaf], &[0xed, 0xa0, 0x80]] {
+			for shape in 0..3 {
+				let mut doc: Vec<u8> = Vec::with_capacity(at + 16);
+				match shape {
+					0 => {
+						doc.push(b'"');
+						doc.resize(at, b'a');
+						doc.extend_from_slice(bad);
+						doc.extend_from_slice(b"b\"");
+					}
+					1 => {
+						doc.push(b'[');
+						while doc.len() + 2 < at {
+							doc.extend_from_slice(b"1,");
+						}
+						doc.resize(at, b' ');
+						doc.extend_from_slice(bad);
+						doc.extend_from_slice(b"]");
+					}
+					_ => {
+						// the ill-formed sequence is the end of the input
+						doc.extend_from_slice(b"[\"");
+						doc.resize(at, b'z');
+						doc.extend_from_slice(bad);
+					}
+				}
+				mon.input(name, &doc);
+				n += 1;
+			}
+		}
 		for ch in ['\u{e9}', '\u{20ac}', '\u{1f600}'] {
 			for shape in 0..4 {
 				let mut doc: Vec<u8> = Vec::with_capacity(at + 64);
@@ -1813,6 +1845,9 @@ pub fn fam_long_strings(cfg: &Config, flags: Flags, max: usize) -> (Report, Vec<
 		format!("{}u20ac", bs),
 		format!("{}uD83D{}uDE00", bs, bs),
 		format!("{}n", bs),
+		// an unpaired high surrogate escape followed by a wide raw character / by a wide escape
+		format!("{}ud800{}", bs, '\u{e9}'),
+		format!("{}uDBFF{}u20ac", bs, bs),
 	];
 	let specials = std::sync::Arc::new(specials);
 	run_family(cfg, flags, name, 32, &move |i, mon| {
